@@ -123,7 +123,7 @@ def parseElemToks : Nat → List String → Option (List (Nat × Str) × List St
   | _ + 1, _ => none
 
 mutual
-/-- operand tokens: `w,<hex>` | `p,<hex>` | `fw,<hex>,<hex>` | `fp,<hex>,<hex>` | `ps,<hex>,<sfx>` | `fps,<hex>,<hex>,<sfx>` (sfx `-`|`*`|`s<digits>`) | `r,<lo>,<hi>,<hex>,<hex>` | `fr,<hex>,<lo>,<hi>,<hex>,<hex>` | `s,<k0>,<k1>,<hex>,<n>, n×(<k>,<hex>)` | `fs,<hex>,<k0>,<k1>,<hex>,<n>,…` | `pe,<hex>,<sfx>` | `fpe,<hex>,<hex>,<sfx>` | `a` | `x,<hex>` | `el,<k>,<hex>` | `fel,<hex>,<k>,<hex>` | `b,<int digits>,<fraction digits or ->,Opd` | `n,<k>,Opd` | `fg,<hex>,` + the fields of `g` | `g,<lead>,<occ>,<k>,<n>,Opd, n × (<op>,<occ>,<sp1>,<sp2>,Opd)` -/
+/-- operand tokens: `w,<hex>` | `p,<hex>` | `fw,<hex>,<hex>` | `fp,<hex>,<hex>` | `ps,<hex>,<sfx>` | `fps,<hex>,<hex>,<sfx>` (sfx `-`|`*`|`s<digits>`) | `r,<lo>,<hi>,<hex>,<hex>` | `fr,<hex>,<lo>,<hi>,<hex>,<hex>` | `s,<k0>,<k1>,<hex>,<n>, n×(<k>,<hex>)` | `fs,<hex>,<k0>,<k1>,<hex>,<n>,…` | `pe,<hex>,<sfx>` | `fpe,<hex>,<hex>,<sfx>` | `a` | `x,<hex>` | `el,<k>,<hex>` | `fel,<hex>,<k>,<hex>` | `b,<int digits>,<fraction digits or ->,Opd` | `pq,<hex>,<sfx>` | `fpq,<hex>,<hex>,<sfx>` | `n,<k>,Opd` | `fg,<hex>,` + the fields of `g` | `g,<lead>,<occ>,<k>,<n>,Opd, n × (<op>,<occ>,<sp1>,<sp2>,Opd)` -/
 def parseOpdToks : Nat → List String → Option (Opd × List String)
   | 0, _ => none
   | fuel + 1, toks =>
@@ -190,6 +190,14 @@ def parseOpdToks : Nat → List String → Option (Opd × List String)
       match parseOpdToks fuel rest with
       | some (o, rest1) => some (boostOpd o ⟨i.toList, if f == "-" then [] else f.toList⟩, rest1)
       | none => none
+    | "pq" :: h :: x :: rest =>
+      match textOfHex h, parseSfxTok x with
+      | some b, some x => some (phraseSOpd b x, rest)
+      | _, _ => none
+    | "fpq" :: hf :: h :: x :: rest =>
+      match textOfHex hf, textOfHex h, parseSfxTok x with
+      | some f, some b, some x => some (fieldPhraseSOpd f b x, rest)
+      | _, _, _ => none
     | "n" :: k :: rest =>
       match k.toNat?, parseOpdToks fuel rest with
       | some k, some (o, rest1) => some (notOpd k o, rest1)
